@@ -652,10 +652,10 @@ theorem relC_flush {cfg : Cfg} {es : List Ev} {T : Nat} {ops V}
 def Rel (cfg : Cfg) (es : List Ev) (s : St) : Prop :=
   RelC cfg es s.uowD.cur s.uowD.ops s.db.versions
 
-theorem uowD_mk_some (d c : Db) (u : Uow) (sp : List Db) (er : Bool) :
+theorem uowD_mk_some (d c : Db) (u : Uow) (sp : List (Db × Option Uow)) (er : Bool) :
     St.uowD { db := d, committed := c, uow := some u, sps := sp, err := er } = u := rfl
 
-theorem uowD_mk_same (s : St) (d c : Db) (sp : List Db) (er : Bool) :
+theorem uowD_mk_same (s : St) (d c : Db) (sp : List (Db × Option Uow)) (er : Bool) :
     St.uowD { db := d, committed := c, uow := s.uow, sps := sp, err := er } = s.uowD := rfl
 
 theorem opsFind_isSome (ops : List OpEntry) (c : Nat) (pk : List Int) :
